@@ -26,6 +26,7 @@ import copy
 import os
 
 from extract import REPO, emit, parse
+from consteval import ModuleEnv, NotConst, norm_struct, struct_layout
 
 RKHT = "spsdk/utils/crypto/rkht.py"
 CB = "spsdk/utils/crypto/cert_blocks.py"
@@ -310,6 +311,226 @@ def probe_isk_flags(cf):
         return None
 
 
+
+# ----------------------------------------------------------------------------------------------- reading BY VALUE (consteval)
+_ENVS = {}
+
+
+def env_of(tree):
+    if id(tree) not in _ENVS:
+        _ENVS[id(tree)] = ModuleEnv(tree)
+    return _ENVS[id(tree)]
+
+
+def _owner(tree, node):
+    """(enclosing class name, enclosing function node) of an AST node"""
+    for c in ast.walk(tree):
+        if isinstance(c, ast.ClassDef):
+            for f in ast.walk(c):
+                if isinstance(f, (ast.FunctionDef, ast.AsyncFunctionDef)) and any(n is node for n in ast.walk(f)):
+                    return c.name, f
+    for f in ast.walk(tree):
+        if isinstance(f, (ast.FunctionDef, ast.AsyncFunctionDef)) and any(n is node for n in ast.walk(f)):
+            return None, f
+    return None, None
+
+
+def _locals_of(tree, fn, cls):
+    """constant local assignments of a function (single assignment of a constant expression), evaluated through the env"""
+    out = {}
+    if fn is None:
+        return out
+    seen, other = {}, set()
+    for n in ast.walk(fn):
+        if isinstance(n, ast.Assign) and len(n.targets) == 1 and isinstance(n.targets[0], ast.Name):
+            seen.setdefault(n.targets[0].id, []).append(n.value)
+        elif isinstance(n, (ast.Assign, ast.AugAssign, ast.AnnAssign, ast.For, ast.comprehension, ast.NamedExpr, ast.With)):
+            tg = n.targets if isinstance(n, ast.Assign) else [getattr(n, "target", None)]
+            for x in tg:
+                other |= {y.id for y in ast.walk(x) if isinstance(y, ast.Name)} if x is not None else set()
+        elif isinstance(n, ast.arg):
+            other.add(n.arg)
+    for name, vals in seen.items():
+        if len(vals) == 1 and name not in other:       # a name bound exactly once, by a plain assignment
+            try:
+                out[name] = env_of(tree).eval(vals[0], cls=cls, local=dict(out))
+            except NotConst:
+                pass
+    return out
+
+
+def cev(tree, node, cls=None, fn=None, default=None):
+    """value of a constant expression at its use site: literals in any spelling, module / class constants, local constants"""
+    if node is None:
+        return default
+    try:
+        return env_of(tree).eval(node, cls=cls, local=_locals_of(tree, fn, cls))
+    except NotConst:
+        return default
+
+
+def cval(tree, cls, attr, default=None):
+    """class constant by value (inherited through bases of the module; any spelling; may refer to other constants)"""
+    try:
+        return env_of(tree).cls(cls).value(attr)
+    except NotConst:
+        return default
+
+
+def cnode(tree, cls, attr):
+    """AST node of a class constant (own or inherited) - for tables whose values are not constants (enum members, classes)"""
+    e = env_of(tree)
+    c = e.classes.get(cls)
+    while c is not None:
+        if attr in c.nodes:
+            return c.nodes[attr]
+        c = next(iter(c.bases()), None)
+    return None
+
+
+def table_node(tree, fn, cls, node, depth=0):
+    """the dict literal a use site refers to: inline `{..}[k]`, a local variable, a class constant (`self.T`, `cls.T`, `Cls.T`)
+    or a module constant - wherever the table happens to be written"""
+    if isinstance(node, ast.Dict) or depth > 4 or node is None:
+        return node if isinstance(node, ast.Dict) else None
+    e = env_of(tree)
+    if isinstance(node, ast.Name):
+        if fn is not None:
+            for n in ast.walk(fn):
+                if isinstance(n, ast.Assign) and len(n.targets) == 1 and isinstance(n.targets[0], ast.Name) and n.targets[0].id == node.id:
+                    return table_node(tree, fn, cls, n.value, depth + 1)
+        if cls and cnode(tree, cls, node.id) is not None:
+            return table_node(tree, None, cls, cnode(tree, cls, node.id), depth + 1)
+        if node.id in e.nodes:
+            return table_node(tree, None, None, e.nodes[node.id], depth + 1)
+    if isinstance(node, ast.Attribute) and isinstance(node.value, ast.Name):
+        base = cls if node.value.id in ("self", "cls") else node.value.id
+        if base and cnode(tree, base, node.attr) is not None:
+            return table_node(tree, None, base, cnode(tree, base, node.attr), depth + 1)
+    return None
+
+
+def pairs_of(tree, dnode, cls=None, fn=None, sort=True):
+    """[(key, value)] of a dict literal; keys / values by VALUE where constant, else the trailing attribute name
+    (`EccCurve.SECP256R1` -> 'SECP256R1'); sorted by key (the code only indexes these tables)"""
+    out = []
+    if not isinstance(dnode, ast.Dict):
+        return out
+    for k, v in zip(dnode.keys, dnode.values):
+        kk = cev(tree, k, cls, fn)
+        vv = cev(tree, v, cls, fn)
+        out.append((kk if kk is not None else attr_name(k), vv if vv is not None else attr_name(v)))
+    if sort:
+        try:
+            out.sort(key=lambda kv: (str(type(kv[0]).__name__), kv[0]))
+        except TypeError:
+            out.sort(key=lambda kv: str(kv[0]))
+    return out
+
+
+def indexed_table(tree, cls, fname, index_pred, table_pred=None):
+    """the table indexed at the first use site `T[<index>]` in method `fname` whose index satisfies `index_pred(index_node)`
+    (and whose resolved pairs satisfy `table_pred`): -> (pairs sorted by key, index node) or ([], None)"""
+    fn = _fun(_cls(tree, cls) if cls else tree, fname)
+    if fn is None:
+        return [], None
+    sites = sorted([n for n in ast.walk(fn) if isinstance(n, ast.Subscript) and index_pred(n.slice)], key=lambda n: (n.lineno, n.col_offset))
+    for n in sites:
+        dn = table_node(tree, fn, cls, n.value)
+        if dn is not None:
+            ps = pairs_of(tree, dn, cls, fn)
+            if table_pred is None or table_pred(ps):
+                return ps, n.slice
+    return [], None
+
+
+def and_mask(tree, node, cls=None, fn=None):
+    """`x & MASK` / `MASK & x` -> MASK by value, else None"""
+    if isinstance(node, ast.BinOp) and isinstance(node.op, ast.BitAnd):
+        for side in (node.right, node.left):
+            v = cev(tree, side, cls, fn)
+            if isinstance(v, int) and not isinstance(v, bool):
+                return v
+    return None
+
+
+def field_of(tree, cls, fname, target):
+    """bit field read into `target`: `(x & M) >> S`, `(x >> S) & m`, `x & M`, optionally wrapped in bool()/int() ->
+    (pre-shift mask M, shift S) by value - both spellings of a field extraction normalise to the same pair"""
+    fn = _fun(_cls(tree, cls), fname)
+    if fn is None:
+        return (BAD, BAD)
+    for n in ast.walk(fn):
+        if isinstance(n, ast.Assign) and len(n.targets) == 1 and attr_name(n.targets[0]) == target:
+            v = n.value
+            while isinstance(v, ast.Call) and attr_name(v.func) in ("bool", "int") and v.args:
+                v = v.args[0]
+            if isinstance(v, ast.Compare) and len(v.ops) == 1 and isinstance(v.ops[0], ast.NotEq) and cev(tree, v.comparators[0], cls, fn) == 0:
+                v = v.left                                    # `(x & M) != 0`
+            if isinstance(v, ast.BinOp) and isinstance(v.op, ast.RShift):
+                sh = cev(tree, v.right, cls, fn)
+                m = and_mask(tree, v.left, cls, fn)
+                if isinstance(sh, int) and m is not None:
+                    return (m, sh)
+            m = and_mask(tree, v, cls, fn)
+            if m is not None:
+                inner = v.left if cev(tree, v.right, cls, fn) == m else v.right
+                if isinstance(inner, ast.BinOp) and isinstance(inner.op, ast.RShift):
+                    sh = cev(tree, inner.right, cls, fn)
+                    if isinstance(sh, int):
+                        return (m << sh, sh)                  # `(x >> S) & m`
+                return (m, 0)
+    return (BAD, BAD)
+
+
+def enum_tags(tree, clsname):
+    """SpsdkEnum members `NAME = (tag, "label", ...)` -> {NAME: tag by value}"""
+    c = _cls(tree, clsname)
+    out = {}
+    if c is None:
+        return out
+    for st in c.body:
+        if isinstance(st, ast.Assign) and len(st.targets) == 1 and isinstance(st.targets[0], ast.Name) and isinstance(st.value, ast.Tuple) and st.value.elts:
+            v = cev(tree, st.value.elts[0], clsname)
+            if isinstance(v, int) and not isinstance(v, bool):
+                out[st.targets[0].id] = v
+    return out
+
+
+def fmt_of(fmt):
+    """struct format by value -> (canonical spelling, [field widths]) ; '<4s2H6I' == '<4sHHIIIIII' == '<4s' 'HH' '6L'"""
+    try:
+        return norm_struct(fmt), [size for _, size, _ in struct_layout(fmt)]
+    except (NotConst, TypeError, AttributeError):
+        return "", [BAD]
+
+
+def probe_dat_flags(fn):
+    """(alwaysBit, usedShift, countShift) of RotMetaFlags.export by evaluating it on stub objects (pack -> struct.pack), or None"""
+    import struct as _st
+    from types import SimpleNamespace as NS
+    if fn is None:
+        return None
+    try:
+        mod = ast.Module(body=[copy.deepcopy(fn)], type_ignores=[])
+        mod.body[0].decorator_list, mod.body[0].returns = [], None
+        for a in mod.body[0].args.args:
+            a.annotation = None
+        ast.fix_missing_locations(mod)
+        ns = {"__builtins__": {"len": len, "int": int, "bytes": bytes}, "pack": _st.pack, "struct": _st}
+        exec(compile(mod, "<probe>", "exec"), ns)  # noqa: S102
+        f = lambda u, c: int.from_bytes(ns[fn.name](NS(used_root_cert=u, cnt_root_cert=c)), "little")  # noqa: E731
+        base = f(0, 0)
+        always, used, cnt = _log2_exact(base), _log2_exact(f(1, 0) - base), _log2_exact(f(0, 1) - base)
+        for u in (0, 3, 15):
+            for c in (1, 4):
+                if f(u, c) != (1 << always) | (u << used) | (c << cnt):
+                    return None
+        return always, used, cnt
+    except Exception:  # noqa: BLE001
+        return None
+
+
 # ----------------------------------------------------------------------------------------------- database
 def deep_update(d, u):
     for k, v in u.items():
@@ -428,21 +649,32 @@ def gen_RotTypes():
     meta["rows"] = len(rows)
     meta["rot_types"] = sorted({t for _, _, _, t, _, _ in rows})
 
-    # ---------------- rot.py / pfr.py
+    # ---------------- rot.py / pfr.py   (everything below is read BY VALUE through consteval: spelling of literals, inline vs hoisted
+    #                                      tables, struct-format spelling and statement text do not matter)
     t = parse(ROT)
     rot_classes = []
     for c in [n for n in t.body if isinstance(n, ast.ClassDef)]:
         if any(attr_name(b) == "RotBase" for b in c.bases):
-            v = lit(class_attr(t, c.name, "rot_type"))
+            v = cval(t, c.name, "rot_type")
             if isinstance(v, str):
                 rot_classes.append((c.name, v))
     d("rotClassTypes", "List (String × String)", "[" + ", ".join(f"({lstr(a)}, {lstr(b)})" for a, b in rot_classes) + "]",
-      "RotBase subclasses in definition order: (class, rot_type)")
+      "RotBase subclasses in definition order (the dispatch iterates them): (class, rot_type)")
     t = parse(PFR)
     f = _fun(t, "get_cert_block_class")
-    pairs = first_dict_in(f)
+    pairs = []
+    if f is not None:
+        cls_name, _ = _owner(t, f)
+        # the table that is indexed / membership-tested with the database value
+        cands = [n.value for n in ast.walk(f) if isinstance(n, ast.Subscript)] + \
+                [n.comparators[0] for n in ast.walk(f) if isinstance(n, ast.Compare) and len(n.ops) == 1 and isinstance(n.ops[0], (ast.In, ast.NotIn))]
+        for cand in cands:
+            dn = table_node(t, f, cls_name, cand)
+            if dn is not None and all(isinstance(cev(t, k, cls_name, f), str) for k in dn.keys):
+                pairs = pairs_of(t, dn, cls_name, f)
+                break
     d("pfrRkhtTypes", "List (String × String)", "[" + ", ".join(f"({lstr(a)}, {lstr(b)})" for a, b in pairs) + "]",
-      "BaseConfigArea.get_cert_block_class: rot_type -> RKHT class")
+      "BaseConfigArea.get_cert_block_class: rot_type -> RKHT class (sorted by key)")
     f = _fun(t, "_calc_rotkh")
     src = ast.unparse(f) if f else ""
     pat("pfrLjustZero", "ljust(reg_rotkh.width // 8, b'\\x00')" in src)
@@ -450,15 +682,22 @@ def gen_RotTypes():
 
     # ---------------- rkht.py
     t = parse(RKHT)
-    d("rkhtV1Slots", "Nat", nat(lit(class_attr(t, "RKHTv1", "RKHT_SIZE"))))
-    d("rkhV1Size", "Nat", nat(lit(class_attr(t, "RKHTv1", "RKH_SIZE"))))
+    d("rkhtV1Slots", "Nat", nat(cval(t, "RKHTv1", "RKHT_SIZE")))
+    d("rkhV1Size", "Nat", nat(cval(t, "RKHTv1", "RKH_SIZE")))
     init = _fun(_cls(t, "RKHT"), "__init__")
     mx = BAD
     if init:
         for n in ast.walk(init):
-            if isinstance(n, ast.Compare) and len(n.ops) == 1 and isinstance(n.ops[0], ast.Gt) and "len(rkh_list)" in ast.unparse(n.left):
-                mx = fold(n.comparators[0])
-    d("rkhtMaxKeys", "Nat", nat(mx), "RKHT.__init__: `len(rkh_list) > N` is refused")
+            if isinstance(n, ast.Compare) and len(n.ops) == 1 and "len(rkh_list)" in ast.unparse(n):
+                # `len(l) > N`, `N < len(l)`, `len(l) >= N + 1`, `not len(l) <= N` ... -> the largest accepted length
+                lhs_is_len = "len(rkh_list)" in ast.unparse(n.left)
+                other = cev(t, n.comparators[0] if lhs_is_len else n.left, "RKHT", init)
+                op = type(n.ops[0])
+                if isinstance(other, int):
+                    if not lhs_is_len:
+                        op = {ast.Lt: ast.Gt, ast.LtE: ast.GtE, ast.Gt: ast.Lt, ast.GtE: ast.LtE}.get(op, op)
+                    mx = {ast.Gt: other, ast.GtE: other - 1, ast.LtE: other, ast.Lt: other - 1}.get(op, BAD)
+    d("rkhtMaxKeys", "Nat", nat(mx), "RKHT.__init__: the largest accepted number of hashes")
     gha = _fun(_cls(t, "RKHT"), "_get_hash_algorithm")
     src = ast.unparse(gha) if gha else ""
     pat("eccHashLabelIsShaKeySize", "from_label(f'sha{key.key_size}')" in src)
@@ -473,45 +712,24 @@ def gen_RotTypes():
     ckh = _fun(_cls(t, "RKHT"), "_calc_key_hash")
     src = ast.unparse(ckh) if ckh else ""
     pat("keyHashOrderN2N1", "get_hash(n2_bytes + n1_bytes" in src)
-    pat("keyHashRsaN1IsE", "n_1 = public_key.e" in src and "n_2 = public_key.n" in src)
-    pat("keyHashEccN1IsY", "n_1 = public_key.y" in src and "n_2 = public_key.x" in src)
 
     # ---------------- cert_blocks.py
     t = parse(CB)
-    fmt = lit(class_attr(t, "CertBlockHeader", "FORMAT"), "")
-    le, ws = fmt_widths(fmt)
-    d("cbV1HeaderFormat", "String", lstr(fmt))
-    pat("cbV1HeaderLittle", le)
+    canon, ws = fmt_of(cval(t, "CertBlockHeader", "FORMAT", ""))
+    d("cbV1HeaderFormat", "String", lstr(canon), "struct format in canonical spelling (byte order, one code per field, L written I)")
     d("cbV1HeaderWidths", "List Nat", lnats(ws))
-    d("cbV1Signature", "List UInt8", lbytes(lit(class_attr(t, "CertBlockHeader", "SIGNATURE"), b"")))
-    d("cbV1Alignment", "Nat", nat(lit(class_attr(t, "CertBlockV1", "DEFAULT_ALIGNMENT"))))
-    exp = _fun(_cls(t, "CertBlockHeader"), "export")
-    order = []
-    if exp:
-        for n in ast.walk(exp):
-            if isinstance(n, ast.Call) and attr_name(n.func) == "pack":
-                order = [ast.unparse(a) for a in n.args[1:]]
-    meta["cbV1HeaderOrder"] = order   # informational: argument names of the header `pack` (local names may be renamed freely)
+    d("cbV1HeaderSize", "Nat", nat(cval(t, "CertBlockHeader", "SIZE")))
+    d("cbV1Signature", "List UInt8", lbytes(cval(t, "CertBlockHeader", "SIGNATURE", b"") or b""))
+    d("cbV1Alignment", "Nat", nat(cval(t, "CertBlockV1", "DEFAULT_ALIGNMENT")))
     v1p = _fun(_cls(t, "CertBlockV1"), "parse")
     src = ast.unparse(v1p) if v1p else ""
     pat("cbV1ParseRestoresImageLength", "image_length = header.image_length" in src)
-    v1e = _fun(_cls(t, "CertBlockV1"), "export")
-    src = ast.unparse(v1e) if v1e else ""
-    pat("cbV1CertLenIsLE32", "pack('<I', cert.raw_size)" in src)
 
-    fmt = lit(class_attr(t, "CertificateBlockHeader", "FORMAT"), "")
-    le, ws = fmt_widths(fmt)
-    d("cbV21HeaderFormat", "String", lstr(fmt))
-    pat("cbV21HeaderLittle", le)
+    canon, ws = fmt_of(cval(t, "CertificateBlockHeader", "FORMAT", ""))
+    d("cbV21HeaderFormat", "String", lstr(canon))
     d("cbV21HeaderWidths", "List Nat", lnats(ws))
-    d("cbV21Magic", "List UInt8", lbytes(lit(class_attr(t, "CertificateBlockHeader", "MAGIC"), b"")))
-    exp = _fun(_cls(t, "CertificateBlockHeader"), "export")
-    order = []
-    if exp:
-        for n in ast.walk(exp):
-            if isinstance(n, ast.Call) and attr_name(n.func) == "pack":
-                order = [ast.unparse(a) for a in n.args[1:]]
-    meta["cbV21HeaderOrder"] = order
+    d("cbV21HeaderSize", "Nat", nat(cval(t, "CertificateBlockHeader", "SIZE")))
+    d("cbV21Magic", "List UInt8", lbytes(cval(t, "CertificateBlockHeader", "MAGIC", b"") or b""))
 
     rkr = _cls(t, "RootKeyRecord")
     cf = _fun(rkr, "_calculate_flags")
@@ -530,32 +748,25 @@ def gen_RotTypes():
     d("rkrCurveBits", "List (Nat × List String)",
       "[" + ", ".join(f"({nat(b)}, [" + ", ".join(lstr(s) for s in ns) + "])" for b, ns in curve_bits) + "]",
       "curve names that set flag bit k in `RootKeyRecord._calculate_flags` (names sorted)")
-    pf = _fun(rkr, "parse")
-    m, s = mask_shift(pf, "ca_flag")
+    m, _ = field_of(t, "RootKeyRecord", "parse", "ca_flag")
     d("rkrParseCaMask", "Nat", nat(m))
-    m, s = mask_shift(pf, "used_rot_ix")
-    d("rkrParseUsedMask", "Nat", nat(m))
-    d("rkrParseUsedShift", "Nat", nat(s))
-    m, s = mask_shift(pf, "number_of_hashes")
+    m, sh = field_of(t, "RootKeyRecord", "parse", "used_rot_ix")
+    d("rkrParseUsedMask", "Nat", nat(m), "pre-shift mask of the field, whichever way the extraction is written")
+    d("rkrParseUsedShift", "Nat", nat(sh))
+    m, sh = field_of(t, "RootKeyRecord", "parse", "number_of_hashes")
     d("rkrParseCountMask", "Nat", nat(m))
-    d("rkrParseCountShift", "Nat", nat(s))
-    d("rkrParseHashLen", "List (Nat × Nat)", lpairs(first_dict_in(pf)), "`rotkh_len = {..}[flags & 0xF]`")
-    curve_mask = BAD
-    if pf:
-        for n in ast.walk(pf):
-            if isinstance(n, ast.Subscript) and isinstance(n.value, ast.Dict):
-                sl = n.slice
-                if isinstance(sl, ast.BinOp) and isinstance(sl.op, ast.BitAnd):
-                    curve_mask = fold(sl.right)
-    d("rkrParseCurveMask", "Nat", nat(curve_mask))
-    gh = _fun(rkr, "get_hash_algorithm")
-    d("rkrHashAlg", "List (Nat × String)", lpairs(first_dict_in(gh), lambda v: lstr(str(v).lower())),
-      "`RootKeyRecord.get_hash_algorithm`: `{..}[flags & 0xF]`")
+    d("rkrParseCountShift", "Nat", nat(sh))
+    is_nibble = lambda sl: and_mask(t, sl, "RootKeyRecord") is not None  # noqa: E731   (`T[flags & MASK]`)
+    tbl, idx = indexed_table(t, "RootKeyRecord", "parse", is_nibble)
+    d("rkrParseHashLen", "List (Nat × Nat)", lpairs([kv for kv in tbl if isinstance(kv[0], int) and isinstance(kv[1], int)]),
+      "the table `rotkh_len = T[flags & MASK]` indexes (inline or named), sorted by key")
+    d("rkrParseCurveMask", "Nat", nat(and_mask(t, idx, "RootKeyRecord") if idx is not None else BAD))
+    tbl, _ = indexed_table(t, "RootKeyRecord", "get_hash_algorithm", is_nibble)
+    d("rkrHashAlg", "List (Nat × String)", lpairs([kv for kv in tbl if isinstance(kv[0], int)], lambda v: lstr(str(v).lower())),
+      "`RootKeyRecord.get_hash_algorithm`: `T[flags & MASK]`")
+    pf = _fun(rkr, "parse")
     src = ast.unparse(pf) if pf else ""
     pat("rkrParseTableIfMoreThanOne", "if number_of_hashes > 1" in src)
-    rexp = _fun(_cls(t, "RKHTv21"), "export") if False else _fun(_cls(parse(RKHT), "RKHTv21"), "export")
-    src = ast.unparse(rexp) if rexp else ""
-    pat("rkhtV21ExportIfMoreThanOne", "if len(self.rkh_list) > 1" in src)
 
     isk = _cls(t, "IskCertificate")
     cf = _fun(isk, "_calculate_flags")
@@ -569,38 +780,40 @@ def gen_RotTypes():
     magic = sigoff = BAD
     if pf:
         for n in ast.walk(pf):
-            if isinstance(n, ast.If) and "signature_offset & " in ast.unparse(n.test):
+            if isinstance(n, ast.If) and "signature_offset" in ast.unparse(n.test):
                 for c in ast.walk(n.test):
-                    if isinstance(c, ast.Compare):
-                        magic = fold(c.comparators[0])
+                    if isinstance(c, ast.Compare) and len(c.ops) == 1 and isinstance(c.ops[0], ast.Eq):
+                        for side in (c.comparators[0], c.left):
+                            v = cev(t, side, "IskCertificate", pf)
+                            if isinstance(v, int) and "signature_offset" not in ast.unparse(side):
+                                magic = v
                 for a in ast.walk(n):
                     if isinstance(a, ast.Assign) and attr_name(a.targets[0]) == "signature_offset":
-                        sigoff = fold(a.value)
+                        v = cev(t, a.value, "IskCertificate", pf)
+                        if isinstance(v, int):
+                            sigoff = v
     d("iskNoOffsetMagic", "Nat", nat(magic))
     d("iskNoOffsetSigOffset", "Nat", nat(sigoff))
-    m, s = mask_shift(pf, "user_data_flag")
+    m, _ = field_of(t, "IskCertificate", "parse", "user_data_flag")
     d("iskParseUserDataMask", "Nat", nat(m))
-    d("iskParseKeyLen", "List (Nat × Nat)", lpairs(first_dict_in(pf)))
-    sg = _fun(isk, "create_isk_signature")
-    src = ast.unparse(sg) if sg else ""
-    pat("iskSignedLayoutWithOffset", "data = key_record_data + pack('<3L', self.signature_offset, self.constraints, self.flags)" in src
-      and "data += self.isk_public_key_data + self.user_data" in src)
-    pat("iskSignedLayoutNoOffset", "data = key_record_data + pack('<2L', self.constraints, self.flags)" in src)
+    is_nibble_i = lambda sl: and_mask(t, sl, "IskCertificate") is not None  # noqa: E731
+    tbl, _ = indexed_table(t, "IskCertificate", "parse", is_nibble_i)
+    d("iskParseKeyLen", "List (Nat × Nat)", lpairs([kv for kv in tbl if isinstance(kv[0], int) and isinstance(kv[1], int)]))
 
     # ---------------- IskCertificateLite / CertBlockVx (MC56)
-    d("liteMagic", "Nat", nat(lit(class_attr(t, "IskCertificateLite", "MAGIC"))))
-    d("liteVersion", "Nat", nat(lit(class_attr(t, "IskCertificateLite", "VERSION"))))
-    fmt = lit(class_attr(t, "IskCertificateLite", "HEADER_FORMAT"), "")
-    d("liteHeaderFormat", "String", lstr(fmt))
-    d("liteHeaderWidths", "List Nat", lnats(fmt_widths(fmt)[1]))
-    d("litePubKeyLength", "Nat", nat(lit(class_attr(t, "IskCertificateLite", "ISK_PUB_KEY_LENGTH"))))
-    d("liteSignatureSize", "Nat", nat(lit(class_attr(t, "IskCertificateLite", "ISK_SIGNATURE_SIZE"))))
-    d("liteSignatureOffset", "Nat", nat(lit(class_attr(t, "IskCertificateLite", "SIGNATURE_OFFSET"))))
-    d("vxCertHashLength", "Nat", nat(lit(class_attr(t, "CertBlockVx", "ISK_CERT_HASH_LENGTH"))))
+    d("liteMagic", "Nat", nat(cval(t, "IskCertificateLite", "MAGIC")))
+    d("liteVersion", "Nat", nat(cval(t, "IskCertificateLite", "VERSION")))
+    canon, ws = fmt_of(cval(t, "IskCertificateLite", "HEADER_FORMAT", ""))
+    d("liteHeaderFormat", "String", lstr(canon))
+    d("liteHeaderWidths", "List Nat", lnats(ws))
+    d("litePubKeyLength", "Nat", nat(cval(t, "IskCertificateLite", "ISK_PUB_KEY_LENGTH")))
+    d("liteSignatureSize", "Nat", nat(cval(t, "IskCertificateLite", "ISK_SIGNATURE_SIZE")))
+    d("liteSignatureOffset", "Nat", nat(cval(t, "IskCertificateLite", "SIGNATURE_OFFSET")))
+    d("vxCertHashLength", "Nat", nat(cval(t, "CertBlockVx", "ISK_CERT_HASH_LENGTH")))
 
     # ---------------- AHAB
     t = parse(AHD)
-    tags = enum_tags_2(t, "AHABTags")
+    tags = enum_tags(t, "AHABTags")
     d("ahabTagSrkTable", "Nat", nat(tags.get("SRK_TABLE")))
     d("ahabTagSrkRecord", "Nat", nat(tags.get("SRK_RECORD")))
     d("ahabTagSrkData", "Nat", nat(tags.get("SRK_DATA")))
@@ -610,34 +823,26 @@ def gen_RotTypes():
         d(f"ahabSignEcdsa{ver}", "Nat", nat(e.get("ECDSA")))
         e = enum_tags(t, "AHABSignHashAlgorithm" + ver)
         d(f"ahabHashTags{ver}", "List (String × Nat)",
-          "[" + ", ".join(f"({lstr(k.lower())}, {v})" for k, v in e.items() if k in ("SHA256", "SHA384", "SHA512")) + "]")
+          "[" + ", ".join(f"({lstr(k.lower())}, {v})" for k, v in sorted(e.items()) if k in ("SHA256", "SHA384", "SHA512")) + "]")
     t = parse(SRK)
     d("ahabEccKeyType", "List (String × Nat)",
-      "[" + ", ".join(f"({lstr(str(k).lower())}, {nat(v)})" for k, v in dict_pairs(class_attr(t, "SRKRecordBase", "ECC_KEY_TYPE"))) + "]")
-    d("ahabRsaKeyType", "List (Nat × Nat)", lpairs(dict_pairs(class_attr(t, "SRKRecordBase", "RSA_KEY_TYPE"))))
-    ks = class_attr(t, "SRKRecordBase", "KEY_SIZES")
-    ksl = []
-    if isinstance(ks, ast.Dict):
-        for k, v in zip(ks.keys, ks.values):
-            vv = lit(v)
-            if isinstance(vv, tuple) and len(vv) == 2:
-                ksl.append((fold(k), vv))
+      "[" + ", ".join(f"({lstr(str(k).lower())}, {nat(v)})" for k, v in sorted(pairs_of(t, cnode(t, "SRKRecordBase", "ECC_KEY_TYPE"), "SRKRecordBase"), key=lambda kv: str(kv[0]))) + "]")
+    d("ahabRsaKeyType", "List (Nat × Nat)", lpairs([kv for kv in pairs_of(t, cnode(t, "SRKRecordBase", "RSA_KEY_TYPE"), "SRKRecordBase") if isinstance(kv[0], int)]))
+    ks = cval(t, "SRKRecordBase", "KEY_SIZES", {}) or {}
+    ksl = sorted((k, v) for k, v in ks.items() if isinstance(k, int) and isinstance(v, tuple) and len(v) == 2)
     d("ahabKeySizes", "List (Nat × Nat × Nat)", "[" + ", ".join(f"({k}, {a}, {b})" for k, (a, b) in ksl) + "]")
-    d("ahabCaMask", "Nat", nat(lit(class_attr(t, "SRKRecordBase", "FLAGS_CA_MASK"))))
-    d("ahabTableVersion", "Nat", nat(lit(class_attr(t, "SRKTable", "VERSION"))))
-    d("ahabTableVersionV2", "Nat", nat(lit(class_attr(t, "SRKTableV2", "VERSION"))))
-    d("ahabTableHash", "String", lstr(str(attr_name(class_attr(t, "SRKTable", "SRK_HASH_ALGORITHM"))).lower()))
-    d("ahabTableHashV2", "String", lstr(str(attr_name(class_attr(t, "SRKTableV2", "SRK_HASH_ALGORITHM"))).lower()))
-    d("ahabRecordsCnt", "Nat", nat(lit(class_attr(t, "SRKTable", "SRK_RECORDS_CNT"))))
-    d("ahabV2ParamsLen", "Nat", nat(lit(class_attr(t, "SRKRecordV2", "CRYPTO_PARAMS_LEN"))))
-    d("ahabSrkDataVersion", "Nat", nat(lit(class_attr(t, "SRKData", "VERSION"))))
-    cfk = _fun(_cls(t, "SRKRecordBase"), "create_from_key")
-    hp = []
-    if cfk:
-        for n in ast.walk(cfk):
-            if isinstance(n, ast.Dict) and n.keys and all(fold(k) in (256, 384, 521) for k in n.keys):
-                hp = [(fold(k), str(attr_name(v)).lower()) for k, v in zip(n.keys, n.values)]
-    d("ahabEccHashByBits", "List (Nat × String)", lpairs(hp, lstr))
+    d("ahabCaMask", "Nat", nat(cval(t, "SRKRecordBase", "FLAGS_CA_MASK")))
+    d("ahabTableVersion", "Nat", nat(cval(t, "SRKTable", "VERSION")))
+    d("ahabTableVersionV2", "Nat", nat(cval(t, "SRKTableV2", "VERSION")))
+    d("ahabTableHash", "String", lstr(str(attr_name(cnode(t, "SRKTable", "SRK_HASH_ALGORITHM"))).lower()))
+    d("ahabTableHashV2", "String", lstr(str(attr_name(cnode(t, "SRKTableV2", "SRK_HASH_ALGORITHM"))).lower()))
+    d("ahabRecordsCnt", "Nat", nat(cval(t, "SRKTable", "SRK_RECORDS_CNT")))
+    d("ahabV2ParamsLen", "Nat", nat(cval(t, "SRKRecordV2", "CRYPTO_PARAMS_LEN")))
+    d("ahabSrkDataVersion", "Nat", nat(cval(t, "SRKData", "VERSION")))
+    tbl, _ = indexed_table(t, "SRKRecordBase", "create_from_key", lambda sl: "key_size" in ast.unparse(sl),
+                           lambda ps: ps and all(k in (256, 384, 521) for k, _ in ps))
+    hp = [(k, str(v).lower()) for k, v in tbl if isinstance(k, int) and k in (256, 384, 521)]
+    d("ahabEccHashByBits", "List (Nat × String)", lpairs(hp, lstr), "`T[public_key.key_size]` of create_from_key (inline or named), sorted by key")
 
     # ---------------- HAB
     t = parse(SEC)
@@ -647,15 +852,12 @@ def gen_RotTypes():
     d("habAlgPkcs1", "Nat", nat(e.get("PKCS1")))
     d("habAlgEcdsa", "Nat", nat(e.get("ECDSA")))
     d("habEccKeyType", "List (String × Nat)",
-      "[" + ", ".join(f"({lstr(str(k).lower())}, {nat(v)})" for k, v in dict_pairs(class_attr(t, "SrkItemEcc", "ECC_KEY_TYPE"))) + "]")
-    src = ast.unparse(_fun(_cls(t, "SrkItemRSA"), "export") or ast.parse("0"))
-    pat("habRsaItemPack", "pack('>4B2H', 0, 0, 0, self.flag, len(self.modulus), len(self.exponent))" in src)
-    src = ast.unparse(_fun(_cls(t, "SrkItemEcc"), "export") or ast.parse("0"))
-    pat("habEccItemPack", "pack('>8B', 0, 0, 0, self.flag, curve_id, 0, self.key_size >> 8 & 255, self.key_size & 255)" in src)
+      "[" + ", ".join(f"({lstr(str(k).lower())}, {nat(v)})" for k, v in sorted(pairs_of(t, cnode(t, "SrkItemEcc", "ECC_KEY_TYPE"), "SrkItemEcc"), key=lambda kv: str(kv[0]))) + "]")
     src = ast.unparse(_fun(_cls(t, "SrkTable"), "export_fuses") or ast.parse("0"))
     pat("habFusesIsHashOfItemHashes", "data += srk.sha256()" in src and "return sha256(data).digest()" in src)
     t = parse(HDR)
-    d("habHeaderFormat", "String", lstr(lit(class_attr(t, "Header", "FORMAT"), "")))
+    canon, _ = fmt_of(cval(t, "Header", "FORMAT", ""))
+    d("habHeaderFormat", "String", lstr(canon))
     e = enum_tags(t, "SegTag")
     d("habTagCrt", "Nat", nat(e.get("CRT")))
 
@@ -666,21 +868,30 @@ def gen_RotTypes():
     if f:
         for n in ast.walk(f):
             if isinstance(n, ast.keyword) and n.arg == "exp_length":
-                el = fold(n.value)
+                el = cev(t, n.value, "RotMetaRSA", f, BAD)
     d("datRsaExpLength", "Nat", nat(el), "RotMetaRSA: `rot.export(exp_length=N)`")
     f = _fun(_cls(t, "RotMetaRSA"), "export")
     tl = BAD
     if f:
         for n in ast.walk(f):
-            if isinstance(n, ast.Call) and attr_name(n.func) == "bytearray" and n.args:
-                tl = fold(n.args[0])
+            if isinstance(n, ast.Call) and attr_name(n.func) in ("bytearray", "bytes") and n.args:
+                v = cev(t, n.args[0], "RotMetaRSA", f)
+                if isinstance(v, int) and not isinstance(v, bool):
+                    tl = v
     d("datRsaTableLen", "Nat", nat(tl))
-    d("datEccHashSizes", "List (Nat × Nat)", lpairs(dict_pairs(class_attr(t, "RotMetaEcc", "HASH_SIZES"))))
+    hs = cval(t, "RotMetaEcc", "HASH_SIZES", {}) or {}
+    d("datEccHashSizes", "List (Nat × Nat)", lpairs(sorted((k, v) for k, v in hs.items() if isinstance(k, int) and isinstance(v, int))))
     f = _fun(_cls(t, "RotMetaFlags"), "export")
-    sh = shifts_in(f)
-    d("datFlagsAlwaysBit", "Nat", nat(next((k for txt, k in sh if txt == "1"), BAD)))
-    d("datFlagsUsedShift", "Nat", nat(shift_of(f, "used_root_cert")))
-    d("datFlagsCountShift", "Nat", nat(shift_of(f, "cnt_root_cert")))
+    pdf = probe_dat_flags(f)
+    meta["dat_flags_mode"] = "probed (semantic)" if pdf else "syntactic fallback"
+    if pdf:
+        al, us, cs_ = pdf
+    else:
+        sh = shifts_in(f)
+        al, us, cs_ = next((k for txt, k in sh if txt == "1"), BAD), shift_of(f, "used_root_cert"), shift_of(f, "cnt_root_cert")
+    d("datFlagsAlwaysBit", "Nat", nat(al))
+    d("datFlagsUsedShift", "Nat", nat(us))
+    d("datFlagsCountShift", "Nat", nat(cs_))
 
     out.append("")
     out.append("end SpsdkVerif.Generated.RotTypes")
